@@ -40,6 +40,9 @@ type Ledger struct {
 	Rules    map[string]string // rule id -> rule text
 	Notes    []string
 	Extra    map[string]any
+	// Remap, when set, renames or drops obligations as they are recorded; it
+	// lets one property re-use the rule bodies of another under its own ids.
+	Remap func(rule string) (string, bool)
 }
 
 // NewLedger creates a ledger.
@@ -48,9 +51,32 @@ func NewLedger(p *Program, prop, tier string) *Ledger {
 }
 
 // Rule registers the text of a rule (shown in the evidence).
-func (l *Ledger) Rule(id, text string) { l.Rules[id] = text }
+func (l *Ledger) Rule(id, text string) {
+	if l.Remap != nil {
+		return
+	}
+	l.Rules[id] = text
+}
+
+// With runs f with a temporary remapping of rule ids.
+func (l *Ledger) With(remap map[string]string, f func()) {
+	old := l.Remap
+	l.Remap = func(rule string) (string, bool) {
+		nr, ok := remap[rule]
+		return nr, ok
+	}
+	defer func() { l.Remap = old }()
+	f()
+}
 
 func (l *Ledger) add(rule, construct string, pos token.Pos, st Status, detail string) {
+	if l.Remap != nil {
+		nr, keep := l.Remap(rule)
+		if !keep {
+			return
+		}
+		rule = nr
+	}
 	site := "-"
 	if l.Prog != nil {
 		site = l.Prog.Pos(pos)
@@ -86,6 +112,13 @@ func (l *Ledger) Check(cond bool, rule, construct string, pos token.Pos, okDetai
 // Floor asserts that a rule found at least floor instances of its subject;
 // fewer is undecided (the subject is missing), never vacuously green.
 func (l *Ledger) Floor(rule string, found, floor int, what string) bool {
+	if l.Remap != nil {
+		if nr, keep := l.Remap(rule); keep {
+			rule = nr
+		} else if found >= floor {
+			return true
+		}
+	}
 	l.Floors[rule+" "+what] = [2]int{found, floor}
 	if found < floor {
 		l.add(rule, "floor/"+what, token.NoPos, Undecided, fmt.Sprintf("found %d %s, expected at least %d (confirmed by hand on the pinned tree)", found, what, floor))
